@@ -156,7 +156,7 @@ CLAIMED["C09"] = ("DESIGN.md §4 C09",
     "the row windows [0,100) and around 0x7FFF / 0xFFFF in the quick tier, all 10^6 rows in the thorough tier), "
     "whole-row / whole-column spans and single-axis references for every row / column), and the printed text is read back "
     "by an independent A1 parser; cross-table references over 3 sheets x 2+2+1 tables with symbolic names resolve to exactly the "
-    "stored table; whole-column references by header label (real ScopedNameRefCache) over 3 tables x 2 labelled columns with six "
+    "stored table; whole-column references by header label (real ScopedNameRefCache) over 3 tables x 2 labelled columns / rows with six "
     "symbolic labels resolve - narrower scopes shadowing wider ones - to exactly the stored column.",
     "trusted: pysym; formula nodes are attribute bags; model stub for names and header cells; outside: row labels, labels with "
     "operator characters or quotes, uuid map from archives, cache invalidation history")
@@ -178,7 +178,7 @@ CLAIMED["C20"] = ("DESIGN.md §4 C20 (partial)",
     "(thorough: 4) arbitrary Unicode characters with --whitespace and --no-header on/off: z3 shows a cell becomes a number only "
     "when float() gives a finite value - nan / inf / infinity spellings stay text - and that text is kept character for character "
     "(or whitespace-squeezed as documented); rows keep file order (reversed as a whole with --reverse) and one value per column "
-    "(known finding: duplicate header names). The csv module, the Document save/reopen and the cat-numbers export are NOT covered.",
+    "(known finding: duplicate header names); --delete / --rename touch exactly the named column. The csv module, the Document save/reopen and the cat-numbers export are NOT covered.",
     "trusted: pysym; float(str) decided by the real float() on class-representative strings after forking every symbolic character "
     "into its lexical class; Converter built without reading a file; outside: csv reader/writer (C level), document I/O and export, "
     "numeric value round trip (C01), --date columns, command-line error reporting")
